@@ -94,6 +94,11 @@ pub fn gen_model(rng: &mut Rng, size: usize, with_range: bool) -> Value {
         match rng.below(10) {
             0 => { line += if rng.chance(1, 8) { 64 * rng.range(1, 3) } else { 1 + rng.range(0, 3) }; col = rng.range(0, 5); }
             1 | 2 => {}                                   // same position as the previous token
+            3 => {
+                // a column delta from every VLQ digit-count class; columns stay below 2^29
+                let d = 1 + vlq_class(rng, 6);
+                if col + d >= (1 << 29) { line += 1; col = d.min((1 << 29) - 1); } else { col += d; }
+            }
             _ => { col += rng.range(1, 30); }
         }
         let dup = !toks.is_empty() && rng.chance(1, 12);
@@ -104,15 +109,18 @@ pub fn gen_model(rng: &mut Rng, size: usize, with_range: bool) -> Value {
         let (src, nm) = if nsrc > 0 && rng.chance(5, 6) {
             (rng.below(nsrc) as i64, if nnm > 0 && rng.chance(1, 2) { rng.below(nnm) as i64 } else { -1 })
         } else { (-1, -1) };
-        let (sl, sc) = if src >= 0 { (rng.range(0, 2000), if rng.chance(1, 40) { rng.range(0, (1 << 29) - 1) } else { rng.range(0, 300) }) } else { (0, 0) };
+        let (sl, sc) = if src >= 0 {
+            (if rng.chance(1, 10) { vlq_class(rng, 5) } else { rng.range(0, 2000) },
+             if rng.chance(1, 10) { vlq_class(rng, 6) } else { rng.range(0, 300) })
+        } else { (0, 0) };
         let rg = if with_range && rng.chance(1, 4) { 1 } else { 0 };
         toks.push(json!([line, col, src, sl, sc, nm, rg]));
     }
     let uniq = rng.chance(1, 2);
-    let sources: Vec<Value> = (0..nsrc).map(|i| if uniq { cps(&format!("src/ü{}.js", i)) } else { cps(*rng.pick(SRC_POOL)) }).collect();
+    let sources: Vec<Value> = (0..nsrc).map(|i| if uniq { cps(&format!("src/ü{}.js", i)) } else if rng.chance(1, 3) { cps(&gen_src_name(rng)) } else { cps(*rng.pick(SRC_POOL)) }).collect();
     let names: Vec<Value> = (0..nnm).map(|i| if uniq { json!(format!("n{}", i)) } else { json!(*rng.pick(NAME_POOL)) }).collect();
     let mut m = json!({"op": "map", "toks": toks, "nsrc": nsrc, "nnm": nnm, "sources": sources, "names": names});
-    if rng.chance(1, 2) { m["root"] = json!([cps(*rng.pick(ROOT_POOL))]); }
+    if rng.chance(1, 2) { m["root"] = json!([if rng.chance(1, 3) { cps(&gen_root_name(rng)) } else { cps(*rng.pick(ROOT_POOL)) }]); }
     if rng.chance(1, 2) { m["file"] = json!([*rng.pick(NAME_POOL)]); }
     if rng.chance(1, 3) { m["debug_id"] = json!([*rng.pick(UUIDS)]); }
     if nsrc > 0 && rng.chance(1, 2) {
